@@ -275,7 +275,14 @@ func TestC03(t *testing.T) {
 			if !(lb*(1-sl) <= v) {
 				t.Fatalf("C03 %s: v=%v is below LowerBound(Index(v)=%d)=%v", spec, v, i, lb)
 			}
-			if i+1 <= imax {
+			if i+1 > imax {
+				// the bin of the largest indexable value: its upper bound may lie beyond the largest float64 (+Inf is a
+				// correct answer, NaN or a value below v is not)
+				if ub := m.LowerBound(i + 1); !(v <= ub*(1+sl)) || !(lb < ub) {
+					t.Fatalf("C03 %s: v=%v in the highest bin %d (lower bound %v): LowerBound(%d)=%v", spec, v, i, lb, i+1, ub)
+				}
+				cl.label("top-bin-upper-bound")
+			} else {
 				ub := m.LowerBound(i + 1)
 				if !(v <= ub*(1+sl)) {
 					t.Fatalf("C03 %s: v=%v is above LowerBound(Index(v)+1=%d)=%v", spec, v, i+1, ub)
